@@ -320,7 +320,7 @@ func biasedAst(rng *rand.Rand, cfg gen.Config) *gen.Node {
 	cfg.MaxDepth = 1 + rng.Intn(2)
 	tail := gen.Random(rng, cfg)
 	var head *gen.Node
-	switch rng.Intn(11) {
+	switch rng.Intn(13) {
 	case 0: // leading string
 		head = lit(w())
 	case 1: // leading strings
@@ -365,6 +365,31 @@ func biasedAst(rng *rand.Rand, cfg gen.Config) *gen.Node {
 			if rng.Intn(3) == 0 {
 				parts = append(parts, &gen.Node{Kind: gen.KQuant, Lo: rng.Intn(2), Hi: -1, Subs: []*gen.Node{{Kind: gen.KShort, Short: 's'}}})
 			}
+		}
+		head = &gen.Node{Kind: gen.KSeq, Subs: parts}
+	case 9: // a counted repetition around the analysers' expansion limits (20 / 32 / 64), then fixed content
+		counts := []int{2, 5, 19, 20, 21, 24, 31, 32, 33, 40, 64, 65, 70}
+		k := counts[rng.Intn(len(counts))]
+		var body *gen.Node
+		switch rng.Intn(3) {
+		case 0:
+			body = &gen.Node{Kind: gen.KLit, Ch: 'a'}
+		case 1:
+			body = &gen.Node{Kind: gen.KClass, Class: &gen.Class{Items: []gen.ClassItem{{Lo: 'a', Hi: 'b'}}}}
+		default:
+			body = &gen.Node{Kind: gen.KShort, Short: "dw"[rng.Intn(2)]}
+		}
+		hi := k
+		if rng.Intn(4) == 0 {
+			hi = k + rng.Intn(3)
+		}
+		q := &gen.Node{Kind: gen.KQuant, Lo: k, Hi: hi, Subs: []*gen.Node{body}}
+		parts := []*gen.Node{q, lit([]string{"c", ".x", "-id", "cb"}[rng.Intn(4)])}
+		if rng.Intn(3) == 0 {
+			parts = append([]*gen.Node{{Kind: gen.KClass, Class: &gen.Class{Items: []gen.ClassItem{{Lo: 'x', Hi: 'y'}}}}}, parts...)
+		}
+		if rng.Intn(4) == 0 {
+			parts[len(parts)-2] = &gen.Node{Kind: gen.KCap, Subs: []*gen.Node{q}}
 		}
 		head = &gen.Node{Kind: gen.KSeq, Subs: parts}
 	default: // positive lookahead in front
